@@ -1,10 +1,10 @@
 SPECIFICATION Spec
 CONSTANTS
   OpenDev = {}
-  States <- SetStates
-  CmdU <- SetCmds
-  Relevant <- AllRelevant
-  Fam = "sets"
+  States <- HashStates
+  CmdU <- HashCmds
+  Relevant <- HashRelevant
+  Fam = "hashes"
 ACTION_CONSTRAINT Emit
 VIEW View
 INVARIANT WellFormed
